@@ -17,6 +17,8 @@ Decided:
   R13.7  no function changes a container parameter in place when a call site hands it stored state (attribute,
          element of an attribute container, module-level container, or what a callee returns from those); frozen
          accept table for the diagnostic logs
+  R13.8  class-level containers are rebound per instance before any method changes them in place
+  R13.9  keyless memos (`if self.x is not None: return`): every method that writes what the producer reads resets self.x
   R13.6  the nominal borehole height is dead: on every path of the search classes the first use of the
          live GHE object is preceded by initialize_ghe / calculate_excess, which set an explicit height
 
@@ -214,6 +216,8 @@ def check(prog: Program, tier: str) -> Result:
     _check_mutable_defaults(prog, res)
     _check_globals_and_nondeterminism(prog, res)
     _check_param_mutation(prog, res)
+    _check_class_level_mutables(prog, res)
+    _check_keyless_memos(prog, res)
     _check_setters(prog, res, ea)
     _check_nominal_height(prog, res)
     return res
@@ -316,6 +320,102 @@ PARAM_MUTATION_ACCEPT = {
     ("perform_current_month_simulation", "two_day_fluid_temps_pk"): "diagnostic log of the two-day responses of the HybridLoad object under construction; written once per month by its constructor, never read by the computation",
     ("perform_current_month_simulation", "two_day_fluid_temps_nm"): "same: diagnostic log",
 }
+
+
+def _check_class_level_mutables(prog: Program, res: Result):
+    """R13.8: a list / dict / set written in a CLASS body is one object shared by every instance.  If a method changes it in
+    place through self.<a> and no constructor of the class (or of a base) rebinds self.<a> first, every instance - every
+    design run of the process - appends to the same object."""
+    from ..model import MUTATORS
+
+    n_cls = 0
+    for cq, c in sorted(prog.classes.items()):
+        n_cls += 1
+        shared = {}
+        for st_ in c.node.body:
+            tgt = val = None
+            if isinstance(st_, ast.Assign) and len(st_.targets) == 1 and isinstance(st_.targets[0], ast.Name):
+                tgt, val = st_.targets[0].id, st_.value
+            elif isinstance(st_, ast.AnnAssign) and isinstance(st_.target, ast.Name) and st_.value is not None:
+                tgt, val = st_.target.id, st_.value
+            if tgt and (isinstance(val, (ast.List, ast.Dict, ast.Set)) or (isinstance(val, ast.Call) and attr_chain(val.func) in ("list", "dict", "set"))):
+                shared[tgt] = st_
+        if not shared:
+            continue
+        # classes whose instances see this attribute: the class and its subclasses
+        family = [k for k in prog.classes.values() if any(b is c for b in prog.mro(f"{k.module}.{k.name}"))] if hasattr(prog, "mro") else [c]
+        for a, st_ in shared.items():
+            rebound_in_init = False
+            for k in family:
+                for b in prog.mro(f"{k.module}.{k.name}"):
+                    init = b.methods.get("__init__")
+                    if init is not None and any(isinstance(n, ast.Assign) and any(attr_chain(t) == f"self.{a}" for t in n.targets) for n in ast.walk(init.node)):
+                        rebound_in_init = True
+            muts = []
+            for k in family:
+                for m in k.methods.values():
+                    for n in ast.walk(m.node):
+                        if isinstance(n, ast.Call) and isinstance(n.func, ast.Attribute) and n.func.attr in MUTATORS and attr_chain(n.func.value) == f"self.{a}":
+                            muts.append((m, n))
+                        if isinstance(n, (ast.Assign, ast.AugAssign)):
+                            for t in (n.targets if isinstance(n, ast.Assign) else [n.target]):
+                                if isinstance(t, ast.Subscript) and attr_chain(t.value) == f"self.{a}":
+                                    muts.append((m, n))
+            ok = rebound_in_init or not muts
+            res.ob("R13.8", f"{c.name}.{a}: the class-level container is rebound per instance before it is changed in place (or never changed)", ok, f"{c.module.replace('.', '/')}.py:{st_.lineno}")
+            if not ok:
+                m, n = muts[0]
+                res.violation("R13.8", f"{cq}|{a}", prog.loc(m, n), m.qualname,
+                              f"{c.name}.{a} is a class-level {type(st_.value).__name__.lower() if hasattr(st_, 'value') else 'container'} that {m.name}() changes in place and no constructor rebinds: all instances share it, "
+                              "so what one design run records shows up in the next one")
+    res.count("classes_scanned", n_cls)
+
+
+def _check_keyless_memos(prog: Program, res: Result):
+    """R13.9: a method that returns early when self.<x> is already set (`if self.x is not None: return`) memoises x without a
+    key.  That is history independent only if every other method that writes something the producer reads also resets
+    self.<x>.  Reads / writes come from the effect analysis (upward-exposed reads of the producer, may-writes of the others)."""
+    n_memo = 0
+    for cq, c in sorted(prog.classes.items()):
+        ea = None
+        for mname, m in c.methods.items():
+            body = [s_ for s_ in m.node.body if not (isinstance(s_, ast.Expr) and isinstance(s_.value, ast.Constant))]
+            if not body or not isinstance(body[0], ast.If) or body[0].orelse:
+                continue
+            g = body[0]
+            if not (len(g.body) == 1 and isinstance(g.body[0], ast.Return)):
+                continue
+            t = g.test
+            x = None
+            if isinstance(t, ast.Compare) and len(t.ops) == 1 and isinstance(t.ops[0], ast.IsNot) and isinstance(t.comparators[0], ast.Constant) and t.comparators[0].value is None:
+                x = attr_chain(t.left)
+            elif isinstance(t, ast.Attribute):
+                x = attr_chain(t)
+            if not x or not x.startswith("self.") or x.count(".") != 1:
+                continue
+            # the producer must assign x later in the same method
+            if not any(isinstance(n, ast.Assign) and any(attr_chain(tt) == x for tt in n.targets) for n in ast.walk(m.node)):
+                continue
+            n_memo += 1
+            if ea is None:
+                ea = EffectAnalyzer(prog)
+            eff = ea.method(m)
+            deps = {r for r in eff.exposed if r != x and not r.startswith(x + ".")}
+            stale = []
+            for wname, w in c.methods.items():
+                if w is m or wname == "__init__":
+                    continue
+                we = ea.method(w)
+                hit = sorted(d for d in deps if any(d == ww or d.startswith(ww + ".") or ww.startswith(d + ".") for ww in we.may_write))
+                if hit and not any(ww == x for ww in we.may_write):
+                    stale.append((w, hit))
+            ok = not stale
+            res.ob("R13.9", f"{c.name}.{mname} keeps {x} once it is set; every method that changes what it is built from resets it", ok, prog.loc(m, g))
+            for w, hit in stale[:3]:
+                res.violation("R13.9", f"{cq}.{mname}|{x}|{w.name}", prog.loc(w, w.node), w.qualname,
+                              f"{c.name}.{mname}() returns early when {x} is already set, but {w.name}() changes {hit[:3]} (which {mname} reads) without resetting {x}: "
+                              "after a second run on the same object the first run's result is handed out")
+    res.count("keyless_memos", n_memo)
 
 
 def _check_param_mutation(prog: Program, res: Result):
@@ -520,6 +620,11 @@ def _check_nominal_height(prog: Program, res: Result):
 
 M = "ghedesigner.manager"
 VARIANTS = [
+    Variant("search log declared at class level and no longer created per instance (seeded C12_c)", "break",
+            [("ghedesigner.search_routines", "class Bisection1D:\n", "class Bisection1D:\n    searchTracker: list = []\n\n"),
+             ("ghedesigner.search_routines", "        self.searchTracker = []\n        coordinates = coordinates_domain[0]", "        coordinates = coordinates_domain[0]")], "R13.8"),
+    Variant("prepare_results keeps the first result for the lifetime of the manager (seeded C12_d)", "break",
+            [(M, "    def prepare_results(self, project_name: str, note: str, author: str, iteration_name: str):\n", "    def prepare_results(self, project_name: str, note: str, author: str, iteration_name: str):\n        if self.results is not None:\n            return\n")], "R13.9"),
     Variant("radius correction applied in place to the curve it is given (seeded C13_b)", "break",
             [("ghedesigner.gfunction", """        g_function_corrected = []
         for g in g_function:
